@@ -247,6 +247,18 @@ def S.sendProposal (s : S) (b : Blk) (pol : Int) : S :=
   let m := Msg.proposal s.me s.height s.round b pol
   ((s.emit (.write .round (.msg m))).emit (.sync .round)).emit (.send m)
 
+/-- handlePrevoteMessage, first part: unlock on a polka for something else in a later round;
+    remember the part-set id of a polka of the current round -/
+def S.prevoteDecision (s : S) (mr : Nat) (d : Option (Option Blk)) : S :=
+  match d with
+  | some psid =>
+    let s := if s.lockedRound < (mr : Int) && s.locked.isSome && (s.locked.map (·.1)) != psid
+             then s.unlock else s
+    match psid with
+    | some b => if s.round == mr then { s with cur := s.cur.setByID b } else s
+    | none => s
+  | none => s
+
 /-! ### the step machine.  All `enterX` functions are mutually recursive in the Go
     code (sendVote feeds the own vote back into ReceiveVoteMessage); every call
     strictly advances (height, round, step), the model uses a fuel argument. -/
@@ -287,14 +299,7 @@ def handlePrevote : Nat → S → Nat → S
     if s.step ≥ stCommit then s
     else
       let d := (votesFor s.hvs mr .prevote).decision s.n
-      let s := match d with
-        | some psid =>
-          let s := if s.lockedRound < (mr : Int) && s.locked.isSome && (s.locked.map (·.1)) != psid
-                   then s.unlock else s
-          match psid with
-          | some b => if s.round == mr then { s with cur := s.cur.setByID b } else s
-          | none => s
-        | none => s
+      let s := s.prevoteDecision mr d
       if s.round > mr && s.step < stPrevote && (mr : Int) == s.polRound && s.isPropAndPOLComplete then
         enterPrevote f s
       else if s.round == mr && s.step < stPrevote then enterPrevote f s
